@@ -491,8 +491,28 @@ class StmtMixin:
         return False
 
     def ex_With(self, s, fr, st):
-        for item in s.items:
+        for k, item in enumerate(s.items):
             ctx = self.eval(item.context_expr, fr, st)
+            if ctx.op == "CtxCall":
+                # a generator-based context manager: its body runs around the rest of this statement
+                rest = s.items[k + 1:]
+                body = [ast.copy_location(ast.With(items=rest, body=s.body), s)] if rest else s.body
+                x = ctx.extra["cm"]
+                hook = {"fr": fr, "locals": st.locals, "target": item.optional_vars, "body": body, "ran": False,
+                        "falls": None, "locals_after": None}
+                try:
+                    self.call_repo(x["fi"], x["captured"], x["self_node"], x["pos"], x["kw"], st, fr, ctx.site,
+                                   closure_self=x["closure_self"], cm_hook=hook)
+                except PathEnd:
+                    if hook["locals_after"] is not None:
+                        st.locals = hook["locals_after"]
+                    return False
+                if hook["locals_after"] is not None:
+                    st.locals = hook["locals_after"]
+                if not hook["ran"]:
+                    self.effect("unsupported", self.site_of(s, fr), st, fr, what="context manager that never yields")
+                    return True
+                return bool(hook["falls"])
             if item.optional_vars is not None:
                 self.assign(item.optional_vars, ctx, fr, st)
         return self.exec_block(s.body, fr, st)
